@@ -172,6 +172,15 @@ func ReuseWAL(cfg *config.Config, dir string, nextSeq uint64) (*WAL, error) {
 	// Try the most recent one (last in sorted order)
 	latestWAL := files[len(files)-1]
 
+	// Entries appended after a damaged or partially written tail could not be
+	// read back: leave such a file as it is and let the caller start a new one
+	if !endsCleanly(latestWAL) {
+		if !DisableRecoveryLogs {
+			fmt.Printf("Latest WAL file does not end cleanly, not reusing it: %s\n", latestWAL)
+		}
+		return nil, nil
+	}
+
 	// Try to open for append
 	file, err := os.OpenFile(latestWAL, os.O_RDWR|os.O_APPEND, 0644)
 	if err != nil {
